@@ -153,6 +153,13 @@ pub fn decode_target(target: &str, data: &[u8]) -> Option<Case> {
             }
             c
         }),
+        // metamorphic stream of C01: aux_i = [1, relabelling seed, reflection bits, axis permutation, power of two]
+        "fz_c01" => decode_opts(data, &DecOpts { max_n: 12, aux_i: 4, ..d }).map(|mut c| {
+            let seed = c.aux_i[0];
+            let (f, a, k) = (c.aux_i[1] % 8, c.aux_i[2] % 6, c.aux_i[3] % 81 - 40);
+            c.aux_i = vec![1, seed, f, a, k];
+            c
+        }),
         // safety radius + additions outside the ball
         "fz_c16" => decode_opts(data, &DecOpts { max_n: 14, aux_f: 84, ..d }),
         _ => None,
@@ -168,6 +175,7 @@ pub fn target_check(target: &str) -> Option<(&'static str, CheckFn)> {
         "fz_tess" => ("C05", c05::check_fuzz as CheckFn),
         "fz_clip" => ("C18", c18::check),
         "fz_nn" => ("C17", c17::check),
+        "fz_c01" => ("C01", c01::check),
         "fz_c06" => ("C06", c06::check),
         "fz_c07" => ("C07", c07::check),
         "fz_c08" => ("C08", c08::check),
